@@ -2200,8 +2200,17 @@ class Gen:
             else:
                 S = [a for a in ats if rng.random() < 0.85]
             rng.shuffle(S)
+            how = rng.choice(("list", "set", "tuple", "iter", "gen"))
+            if S and how != "set" and rng.random() < 0.15:
+                # an iterable that names atoms more than once (the end atoms of
+                # a list of bonds, say); sometimes as long as the graph is large
+                extra = [rng.choice(S) for _ in range(rng.randint(1, 3))]
+                if len(S) < len(ats) and rng.random() < 0.5:
+                    extra = [rng.choice(S) for _ in range(len(ats) - len(S))]
+                S = S + extra
+                rng.shuffle(S)
             d = self.slot_id()
-            yield dict(k="subgraph", src=s, dst=d, atoms=S, **{"as": rng.choice(("list", "set", "tuple", "iter", "gen"))})
+            yield dict(k="subgraph", src=s, dst=d, atoms=S, **{"as": how})
             if self.w.graph(d) is not None:
                 for _ in range(rng.randint(0, 3)):
                     sl = self.w.graph(d)
